@@ -4,8 +4,8 @@ Programs (sequences of public calls with their arguments, including the bytes
 passed to receive_data) are recorded once while a seeded generator drives a real
 endpoint, then replayed - twice in one process and in separate interpreter
 processes with different PYTHONHASHSEED values.  A per-step transcript digest
-(emitted bytes, canonical events, exception type + error code; not the message
-text) must be identical everywhere.  While replaying, clock / randomness /
+(emitted bytes, canonical events, exception type + error code + message text with
+set literals put in order) must be identical everywhere.  While replaying, clock / randomness /
 socket entry points are replaced by tripwires.
 """
 import hashlib
@@ -25,8 +25,10 @@ RULE = ('each program = 10-80 recorded public calls on one endpoint (hostile-pee
         'reverse order: no connection may depend on the connections served before it) under PYTHONHASHSEED in {0,1,2,12345,<seed-derived>} (8 values in '
         'thorough); non-trivial = program with >= 5 steps whose digests were compared across all replays; distinct = hash of '
         'the program')
-ASSUMPTIONS = ['exception message text is excluded from the transcript (it legitimately embeds set reprs / addresses)']
+ASSUMPTIONS = ['exception message text is compared after the elements of set literals in it have been put in order (the library formats sets of header names into some messages; their order follows the hash seed)']
 PROP = 'C28'
+import re
+_SET_LITERAL = re.compile(r'\{[^{}]*\}')
 SHARED_FIELDS = [(b'x-shared-a', b'1'), (b'x-shared-b', b'two'), (b'x-shared-c', b' three'), (b'accept', b'*/*'), (b'x-token', b'secret')]
 
 
@@ -337,6 +339,10 @@ def replay_programs(progs, reverse=False):
             if exc is not None:
                 code = getattr(exc, 'error_code', None)
                 hsh.update(('%s/%s' % (type(exc).__name__, None if code is None else int(code))).encode())
+                # the text of the exception as well, with the elements of any set literal in it put in order (the library
+                # formats sets of header names into some messages, and their order follows the hash seed)
+                hsh.update(_SET_LITERAL.sub(lambda mo: '{' + ', '.join(sorted(mo.group(0)[1:-1].split(', '))) + '}', str(exc))
+                           .encode('utf-8', 'backslashreplace'))
             digs.append(hsh.hexdigest()[:16])
         out[str(p['idx'])] = digs
     return out, trips, audit.get('n', 0), sorted(audit.get('events', []))
